@@ -4,6 +4,7 @@ mod enumgen;
 mod extcases;
 mod gen;
 mod intern;
+mod introspect;
 mod props;
 mod purity;
 mod recorder;
